@@ -1102,8 +1102,15 @@ var edits = []edit{
 		}
 		p := m.Inputs[ix[0]].GetParams()
 		nv := p.Value + "'"
-		if r.Bool() && len(p.Value) > 0 {
-			nv = p.Value[1:]
+		switch r.Intn(4) {
+		case 0:
+			if len(p.Value) > 0 {
+				nv = p.Value[1:]
+			}
+		case 1: // white space only (a trailing newline of a YAML block scalar, a leading tab): the module receives it
+			nv = p.Value + []string{" ", "\n", "\t", "\r\n"}[r.Intn(4)]
+		case 2:
+			nv = []string{" ", "\n", "\t"}[r.Intn(3)] + p.Value
 		}
 		if names(g)[nv] || names(g)[p.Value] {
 			return false
